@@ -50,6 +50,22 @@ PROPS = {
                 assumptions=["A-IMMUT register/layout/device properties are pure"]),
     "C06": dict(lemmas=[], not_decided=["_ChannelSchedule.get_samples (slice assignment loops) and SequenceSamples.to_nested_dict: bounded stand-in (independent re-rendering)",
                                         "modulated sampling (FFT)"], assumptions=["A-NUMPY pm.pad", "ChannelSamples.__post_init__ assertions hold for the padded arrays (class invariant)"]),
+    "C08": dict(lemmas=[], not_decided=["ParamObj.build cache comparison, Sequence.build replay loop, store/verify_parametrization, MappableRegister.build_register: bounded stand-in (template vs direct construction)"],
+                assumptions=["A-NUMPY pm.AbstractArray conversion is a function of (value, dtype)"]),
+    "C19": dict(lemmas=[], not_decided=["uniqueness of the sorted permutation, hashing, define_register / build_register / weight lookup: bounded stand-in on generated layouts"],
+                assumptions=["A-NUMPY np.lexsort sorts by its last key first (stable)"]),
+    "C17": dict(lemmas=[], level="other",
+                ownership=["pulser-core/pulser/devices", "pulser-core/pulser/channels", "pulser-core/pulser/noise_model.py", "pulser-core/pulser/register",
+                           "pulser-core/pulser/backend", "pulser-core/pulser/json", "pulser-core/pulser/result.py", "pulser-simulation/pulser_simulation"],
+                explanation=("Two parts. (1) Deductive frame obligations, one per function of the anchored packages (pulser.devices, channels, noise_model, register, backend, json, "
+                             "pulser_simulation): the function stores nothing into class-level state (cls.x / ClassName.x / type(self).x / setattr on the class), does not mutate or "
+                             "store a mutable default argument, and does not rebind or mutate a module-level container. These are decided exactly from the AST of the current tree "
+                             "(no solver needed; a violated obligation names the offending line) and hold for all inputs and interleavings: an object can then only share state with "
+                             "another through arguments it was explicitly given. (2) Everything else in the property - schema validity, field-by-field round-trips, "
+                             "NoiseModel<->SimConfig, active noise types, aliasing through argument objects - is reflective / JSON code outside the VC generator's subset and is "
+                             "decided by the bounded stand-in only (generated objects, interleaved constructions); it is labelled bounded and not counted as proved."),
+                not_decided=["round-trips, schema validity, NoiseModel<->SimConfig, active noise types, aliasing through shared argument objects: bounded stand-in"],
+                assumptions=["A-OWN the ownership pass is syntactic: state reached through self.__class__, vars()/__dict__, globals() or C extensions is not seen"]),
     "C10": dict(lemmas=[], not_decided=["phase-jump clause with phase-drift correction (EOM) is stated for drift-free adds only"], assumptions=[]),
     "C09": dict(only=r"/(exc_safe|frame)\.", lemmas=[], not_decided=["replay determinism as a theorem; draw()"], assumptions=[]),
 }
